@@ -27,6 +27,33 @@ type BoolFn struct {
 
 	free  map[ssa.Value]string
 	names map[string]bool
+	depth int // > 0: a predicate helper being evaluated as part of its caller
+}
+
+// predicateHelper: v calls a helper analysed as part of this function whose single result is a boolean (an extracted predicate).
+func predicateHelper(v ssa.Value) (*ssa.Call, *ssa.Function) {
+	c, ok := v.(*ssa.Call)
+	if !ok {
+		return nil, nil
+	}
+	h := AbsorbedCallee(c)
+	if h == nil || h.Signature.Results().Len() != 1 || !isBoolT(h.Signature.Results().At(0).Type()) || len(h.Blocks) == 0 {
+		return nil, nil
+	}
+	return c, h
+}
+
+// inHelper runs f with the helper activation of call c on the (dynamic) activation stack, so that the helper's parameters resolve
+// to the arguments of this call (Unwrap, Resolve, Arg – see paths.go activeFrames).
+func inHelper(c *ssa.Call, h *ssa.Function, f func()) {
+	saved := activeFrames
+	st := append([]pframe{}, saved...)
+	if len(st) == 0 {
+		st = append(st, pframe{b: c.Block()})
+	}
+	activeFrames = append(st, pframe{b: h.Blocks[0], call: c})
+	defer func() { activeFrames = saved }()
+	f()
 }
 
 // BoolRow is one line of the truth table.
@@ -40,6 +67,13 @@ type BoolRow struct {
 
 func (b *BoolFn) atom(v ssa.Value) (string, bool) {
 	v, neg := StripNot(v)
+	if p, isP := v.(*ssa.Parameter); isP {
+		if a := boundOnActivePath(p); a != nil {
+			var n2 bool
+			v, n2 = StripNot(a)
+			neg = neg != n2
+		}
+	}
 	if b.AtomOf != nil {
 		if n, ng, ok := b.AtomOf(v); ok {
 			if ng {
@@ -62,12 +96,36 @@ func (b *BoolFn) atom(v ssa.Value) (string, bool) {
 func (b *BoolFn) Atoms() []string {
 	b.free = map[ssa.Value]string{}
 	b.names = map[string]bool{}
+	b.collect()
+	var out []string
+	for n := range b.names {
+		out = append(out, n)
+	}
+	sort.Strings(out)
+	return out
+}
+
+// collect gathers the atoms of b.Fn (and of the predicate helpers it calls) into b.free / b.names.
+func (b *BoolFn) collect() {
 	var visit func(v ssa.Value, d int)
 	visit = func(v ssa.Value, d int) {
 		if d > 6 {
 			return
 		}
 		v, _ = StripNot(v)
+		if c, h := predicateHelper(v); h != nil && b.depth < 2 {
+			if b.AtomOf != nil {
+				if _, _, ok := b.AtomOf(v); ok {
+					b.atom(v)
+					return
+				}
+			}
+			inHelper(c, h, func() {
+				sub := &BoolFn{Fn: h, AtomOf: b.AtomOf, Event: b.Event, free: b.free, names: b.names, depth: b.depth + 1}
+				sub.collect()
+			})
+			return
+		}
 		switch x := v.(type) {
 		case *ssa.Const:
 			return
@@ -107,12 +165,6 @@ func (b *BoolFn) Atoms() []string {
 			}
 		}
 	}
-	var out []string
-	for n := range b.names {
-		out = append(out, n)
-	}
-	sort.Strings(out)
-	return out
 }
 
 func isBoolT(t types.Type) bool {
@@ -181,6 +233,11 @@ func (b *BoolFn) run(as map[string]bool) BoolRow {
 			}
 			return 1 - x
 		}
+		if p, isP := inner.(*ssa.Parameter); isP {
+			if a := boundOnActivePath(p); a != nil {
+				return flip(eval(a, d+1))
+			}
+		}
 		if b.AtomOf != nil {
 			if n, ng, ok := b.AtomOf(inner); ok {
 				r := 0
@@ -189,6 +246,20 @@ func (b *BoolFn) run(as map[string]bool) BoolRow {
 				}
 				return flip(r)
 			}
+		}
+		if c, h := predicateHelper(inner); h != nil && b.depth < 2 {
+			res := -1
+			inHelper(c, h, func() {
+				sub := &BoolFn{Fn: h, AtomOf: b.AtomOf, Event: b.Event, free: b.free, names: b.names, depth: b.depth + 1}
+				r := sub.run(as)
+				if r.Unknown == "" && len(r.Rets) == 1 {
+					res = r.Rets[0]
+				}
+				for ev := range r.Events {
+					row.Events[ev] = true
+				}
+			})
+			return flip(res)
 		}
 		if lv, ok := loaded[inner]; ok && lv != inner {
 			return flip(eval(lv, d+1))
@@ -260,6 +331,14 @@ func (b *BoolFn) run(as map[string]bool) BoolRow {
 				if ev := b.Event(in); ev != "" {
 					row.Events[ev] = true
 				}
+				// a call of a helper analysed as part of this function: the observed instructions it executes on every path
+				if h := AbsorbedCallee(in); h != nil {
+					for _, hin := range mustInstrs(h, 0) {
+						if ev := b.Event(hin); ev != "" {
+							row.Events[ev] = true
+						}
+					}
+				}
 			}
 			switch x := in.(type) {
 			case *ssa.Store:
@@ -330,4 +409,33 @@ func AssignString(as map[string]bool) string {
 		}
 	}
 	return s
+}
+
+// mustInstrs: the instructions of h (and of the helpers it absorbs, two levels) that lie in blocks dominating every return.
+func mustInstrs(h *ssa.Function, d int) []ssa.Instruction {
+	var rets []*ssa.BasicBlock
+	for _, r := range ReturnsOf(h) {
+		rets = append(rets, r.Block())
+	}
+	var out []ssa.Instruction
+	for _, blk := range h.Blocks {
+		all := len(rets) > 0
+		for _, r := range rets {
+			if blk != r && !blk.Dominates(r) {
+				all = false
+			}
+		}
+		if !all {
+			continue
+		}
+		for _, in := range blk.Instrs {
+			out = append(out, in)
+			if d < 2 {
+				if g := AbsorbedCallee(in); g != nil && g != h {
+					out = append(out, mustInstrs(g, d+1)...)
+				}
+			}
+		}
+	}
+	return out
 }
